@@ -109,6 +109,71 @@ def _test_nodes_with(f, pred_call):
 
 # --------------------------------------------------------------------------- R1
 
+def _producer_helper_views(p, f, loop, is_result, tok, fr_names):
+    """`extract method`: calls inside the frontier loop of `f` that hand the loaded producers to a helper resolved to
+    exactly one definition -> [(helper, is-producers predicate, parameter holding the lost token, parameters
+    holding the frontier)], the roles being played by the parameters bound to exactly those values (and never
+    re-bound in the helper)."""
+    out = []
+    for c in f.calls():
+        if not any(a is loop for a in ancestors(c)):
+            continue
+        if not any(is_result(a) for a in [*c.args, *[k.value for k in c.keywords]]):
+            continue
+        qs = rcall(p, f, c, fanout=False)
+        h = p.functions.get(qs[0]) if len(qs) == 1 else None
+        if h is None or h is f or h.is_abstract:
+            continue
+        if h.is_async and not is_awaited(c):
+            continue
+        b = bind_args(h.node, c, bound=h.cls is not None)
+        if b is None:
+            continue
+
+        def fixed(pn, h=h):
+            return all(d.kind == "param" for d in defs_of(h, pn))
+
+        prods = {pn for pn, a in b.items() if is_result(a) and fixed(pn)}
+        toks = [pn for pn, a in b.items() if tok is not None and isinstance(strip(a), ast.Name) and strip(a).id == tok and fixed(pn)]
+        frontier = {pn for pn, a in b.items() if isinstance(a, ast.Name) and a.id in fr_names and fixed(pn)}
+        if not prods:
+            continue
+        out.append((h, lambda x, prods=prods: isinstance(x, ast.Name) and x.id in prods, toks[0] if len(toks) == 1 else None, frontier))
+    return out
+
+
+def _producer_loop_checks(p, fn, is_res, tok, frontier):
+    """[(ok, message)] for every `for x in <producers>` loop of `fn`: the edge x -> `tok` is recorded for every
+    producer, and x is queued exactly when it was neither visited nor queued before.  `frontier` (helper only):
+    the parameters bound to the caller's frontier - a queue that is a parameter must be one of them."""
+    g = fn.cfg
+    out = []
+    for lp in [n for n in fn.body_nodes() if isinstance(n, ast.For) and is_res(n.iter) and isinstance(n.target, ast.Name)]:
+        pv = lp.target.id
+        iid = g.ids_of(lp)
+        links = [c for c in fn.calls() if any(a is lp for a in ancestors(c)) and resolves_to(p, fn, c, [f"{UTILS}.ProvenanceGraph.add"], attr_fallback=False)
+                 and len(c.args) == 2 and isinstance(c.args[0], ast.Name) and c.args[0].id == pv and isinstance(c.args[1], ast.Name) and c.args[1].id == tok]
+        lids_ = [i for c in links for i in g.node_containing(c)]
+        body = [b for i in iid for b in succ(g, i, "t")]
+        skip = next((pth for b in body if b not in lids_ for pth in [g.path(b, iid, avoid=lids_)] if pth), None) if lids_ else [0]
+        queues = [c for c in fn.calls() if any(a is lp for a in ancestors(c)) and isinstance(c.func, ast.Attribute) and c.func.attr in ("append", "appendleft", "extend")
+                  and c.args and isinstance(c.args[0], ast.Name) and c.args[0].id == pv]
+        visited_ok = False
+        for c in queues:
+            facts = [x for i in g.node_containing(c) for x in path_facts(g, i)]
+            not_seen = membership_fact(facts, lambda e: mentions(fn, e, lambda k: isinstance(k, ast.Name) and k.id == pv, depth=0),
+                                       lambda e: mentions(fn, e, lambda k: isinstance(k, ast.Attribute) and k.attr == "info_tokens", depth=0))
+            not_queued = has_fact(facts, lambda e: isinstance(e, ast.Call) and resolves_to(p, fn, e, ["streamflow.core.utils.contains_persistent_id"], attr_fallback=False), False)
+            visited_ok = not_seen is False and not_queued
+            q = c.func.value
+            if frontier is not None and isinstance(q, ast.Name) and q.id in fn.params and q.id not in frontier:
+                visited_ok = False  # queued on something that is not the caller's frontier
+        ok = bool(lids_) and not skip and visited_ok
+        where = "" if frontier is None else f" (in {fn.qualname})"
+        out.append((ok, f"edge producer->token recorded for every producer={bool(lids_) and not skip}; producer queued exactly when neither visited nor already queued={visited_ok}{where}"))
+    return out
+
+
 
 def r1(ctx):
     p = ctx.prog
@@ -201,27 +266,14 @@ def r1(ctx):
         else:
             ctx.ob("R1", "an unavailable token without producers raises (result not tested in place)", True, func=f, node=ec,
                    instance="expand:no-producers", trivial=True)
-        ploops = [n for n in f.body_nodes() if isinstance(n, ast.For) and is_result(n.iter) and isinstance(n.target, ast.Name)]
+        fr_names = {n.id for n in [loop.test, *ast.walk(loop.test)] if isinstance(n, ast.Name)}
+        views = [(f, is_result, recv.id if isinstance(recv, ast.Name) else None, None)] + _producer_helper_views(
+            p, f, loop, is_result, recv.id if isinstance(recv, ast.Name) else None, fr_names)
         okl, msgl = False, "the producers returned by load_dependee_tokens are not iterated"
-        for lp in ploops:
-            pv = lp.target.id
-            iid = g.ids_of(lp)
-            links = [c for c in f.calls() if any(a is lp for a in ancestors(c)) and resolves_to(p, f, c, [f"{UTILS}.ProvenanceGraph.add"], attr_fallback=False)
-                     and len(c.args) == 2 and isinstance(c.args[0], ast.Name) and c.args[0].id == pv and isinstance(c.args[1], ast.Name) and c.args[1].id == recv.id]
-            lids_ = [i for c in links for i in g.node_containing(c)]
-            body = [b for i in iid for b in succ(g, i, "t")]
-            skip = next((pth for b in body if b not in lids_ for pth in [g.path(b, iid, avoid=lids_)] if pth), None) if lids_ else [0]
-            queues = [c for c in f.calls() if any(a is lp for a in ancestors(c)) and isinstance(c.func, ast.Attribute) and c.func.attr in ("append", "appendleft", "extend")
-                      and c.args and isinstance(c.args[0], ast.Name) and c.args[0].id == pv]
-            visited_ok = False
-            for c in queues:
-                facts = [x for i in g.node_containing(c) for x in path_facts(g, i)]
-                not_seen = membership_fact(facts, lambda e: mentions(f, e, lambda k: isinstance(k, ast.Name) and k.id == pv, depth=0),
-                                           lambda e: mentions(f, e, lambda k: isinstance(k, ast.Attribute) and k.attr == "info_tokens", depth=0))
-                not_queued = has_fact(facts, lambda e: isinstance(e, ast.Call) and resolves_to(p, f, e, ["streamflow.core.utils.contains_persistent_id"], attr_fallback=False), False)
-                visited_ok = not_seen is False and not_queued
-            okl = bool(lids_) and not skip and visited_ok
-            msgl = f"edge producer->token recorded for every producer={bool(lids_) and not skip}; producer queued exactly when neither visited nor already queued={visited_ok}"
+        for fn_, is_res_, tok_, frontier_ in views:
+            for ok_, msg_ in _producer_loop_checks(p, fn_, is_res_, tok_, frontier_):
+                if ok_ or not okl:
+                    okl, msgl = okl or ok_, msg_
         ctx.ob("R1", "every loaded producer is linked to the lost token and queued for examination unless already seen", okl, func=f, node=ec,
                instance="expand:link", message=msgl)
         # the search runs while the frontier is not empty
@@ -445,6 +497,44 @@ def r2(ctx):
 # --------------------------------------------------------------------------- R3
 
 
+def _unmapped_port_fact(p, f, test, truth, depth=3) -> bool:
+    """The outcome `truth` of `test` establishes that some examined port name is `not in <...>.port_tokens`:
+    directly (`name not in self.port_tokens` true / `name in ...` false, through not / and / or), or for some
+    element of the examined collection - builtin `any(<cond> for ...)` true, builtin `all(<cond> for ...)` false, a
+    non-empty `[x for ... if <cond>]` (the filters of the comprehension hold for the witnessing element)."""
+    for e, v in implied(test, truth):
+        if isinstance(e, ast.Compare) and len(e.ops) == 1 and any(isinstance(x, ast.Attribute) and x.attr == "port_tokens" for x in ast.walk(e.comparators[0])) \
+                and ((isinstance(e.ops[0], ast.NotIn) and v) or (isinstance(e.ops[0], ast.In) and not v)):
+            return True
+        if depth <= 0:
+            continue
+        x = e
+        if isinstance(x, ast.Name):
+            x = effective_test(f, x)
+            if x is e:
+                continue
+            if not isinstance(x, (ast.Call, ast.ListComp, ast.SetComp)):
+                if _unmapped_port_fact(p, f, x, v, depth - 1):
+                    return True
+                continue
+        comp, elt_truth = None, None
+        if isinstance(x, ast.Call) and len(x.args) == 1 and not x.keywords and isinstance(x.args[0], (ast.GeneratorExp, ast.ListComp, ast.SetComp)):
+            if is_builtin_call(p, f, x, "any") and v:
+                comp, elt_truth = x.args[0], True
+            elif is_builtin_call(p, f, x, "all") and not v:
+                comp, elt_truth = x.args[0], False
+        elif isinstance(x, (ast.ListComp, ast.SetComp)) and v:
+            comp = x  # non-empty: some element passed every filter
+        if comp is None:
+            continue
+        conds = [(c, True) for gen in comp.generators for c in gen.ifs]
+        if elt_truth is not None:
+            conds.append((comp.elt, elt_truth))
+        if any(_unmapped_port_fact(p, f, c, tv, depth - 1) for c, tv in conds):
+            return True
+    return False
+
+
 def r3(ctx):
     p = ctx.prog
     f = p.func(f"{UTILS}.GraphMapper.get_step_ids")
@@ -506,10 +596,7 @@ def r3(ctx):
             if t.kind != "test":
                 continue
             for k, tr in (("t", True), ("f", False)):
-                hit = any(
-                    isinstance(e, ast.Compare) and len(e.ops) == 1 and any(isinstance(x, ast.Attribute) and x.attr == "port_tokens" for x in ast.walk(e.comparators[0]))
-                    and ((isinstance(e.ops[0], ast.NotIn) and v) or (isinstance(e.ops[0], ast.In) and not v))
-                    for e, v in implied(t.ast, tr))
+                hit = _unmapped_port_fact(p, f, effective_test(f, t.ast), tr)
                 if hit and cid and all(i in region(g, t.id, k) for i in cid):
                     other = "f" if k == "t" else "t"
                     if not any(i in region(g, t.id, other) for i in cid):
@@ -950,6 +1037,19 @@ _SR = f"{STEPM}.ScatterStep.restore"
 _LR = f"{STEPM}.LoopCombinatorStep.restore"
 _CR = "streamflow.workflow.combinator.LoopCombinator.restore"
 
+_PLOOP = ("            for prev_token in prev_tokens:\n                self.add(prev_token, token)\n"
+          "                if prev_token.persistent_id not in self.info_tokens.keys() and (not contains_persistent_id(prev_token.persistent_id, token_frontier)):\n"
+          "                    token_frontier.append(prev_token)\n")
+_LINK_HELPER = """
+def _link_producers(graph: ProvenanceGraph, token, prev_tokens, token_frontier):
+    for prev_token in prev_tokens:
+        graph.add(prev_token, token)
+        if prev_token.persistent_id not in graph.info_tokens.keys() and not contains_persistent_id(prev_token.persistent_id, token_frontier):
+            token_frontier.append(prev_token)
+"""
+_CLOOP_OLD = ("        for port_row in await asyncio.gather(*(asyncio.create_task(self.context.database.get_port(row_dependency['port'])) for row_dependency in dependency_rows)):\n"
+              "            if port_row['name'] not in self.port_tokens.keys():\n                step_to_remove.add(step_id)\n")
+
 VARIANTS = [
     V("expansion when the token IS available", UTILS_FILE, _BG, "elif (is_available := (await token.is_available(context=self.context))):", "elif not (is_available := (await token.is_available(context=self.context))):", "R1", control=True),
     V("recovering jobs are expanded", UTILS_FILE, _BG, "isinstance(token, JobToken) and await self.context.failure_manager.is_recovering(token.value.name)",
@@ -1009,6 +1109,20 @@ VARIANTS = [
     V("loop combinator restore: iterations compared as strings", COMB_FILE, _CR,
       "        self.iteration_map[prefix] = max(self.iteration_map.get(prefix, iteration_num), iteration_num)",
       "        if iteration > prefix:\n            self.iteration_map[prefix] = max(self.iteration_map.get(prefix, iteration_num), iteration_num)", "R5"),
+    V("extracted helper does not link the producers", UTILS_FILE, _BG, _PLOOP, "            _link_producers(self, token, prev_tokens, token_frontier)\n", "R1",
+      append=_LINK_HELPER.replace("        graph.add(prev_token, token)\n", "")),
+    V("extracted helper links the producers to themselves", UTILS_FILE, _BG, _PLOOP, "            _link_producers(self, prev_tokens, token, token_frontier)\n", "R1",
+      append=_LINK_HELPER),
+    V("extracted helper queues on a copy of the frontier", UTILS_FILE, _BG, _PLOOP, "            _link_producers(self, token, prev_tokens, deque(token_frontier))\n", "R1",
+      append=_LINK_HELPER),
+    V("extracted helper queues visited producers again", UTILS_FILE, _BG, _PLOOP, "            _link_producers(self, token, prev_tokens, token_frontier)\n", "R1",
+      append=_LINK_HELPER.replace("prev_token.persistent_id not in graph.info_tokens.keys() and ", "")),
+    V("steps collected only when ALL inputs are unmapped", UTILS_FILE, _GS, _CLOOP_OLD,
+      "        port_rows = await asyncio.gather(*(asyncio.create_task(self.context.database.get_port(row_dependency['port'])) for row_dependency in dependency_rows))\n"
+      "        if all((port_row['name'] not in self.port_tokens.keys() for port_row in port_rows)):\n            step_to_remove.add(step_id)\n", "R3"),
+    V("any(...) over the mapped ports instead of the unmapped ones", UTILS_FILE, _GS, _CLOOP_OLD,
+      "        port_rows = await asyncio.gather(*(asyncio.create_task(self.context.database.get_port(row_dependency['port'])) for row_dependency in dependency_rows))\n"
+      "        if any((port_row['name'] in self.port_tokens.keys() for port_row in port_rows)):\n            step_to_remove.add(step_id)\n", "R3"),
     # benign
     V("availability through a temporary", UTILS_FILE, _BG,
       "        elif (is_available := (await token.is_available(context=self.context))):\n            self.add(token)",
@@ -1039,4 +1153,18 @@ VARIANTS = [
     V("loop restore: components through temporaries", STEP_FILE, _LR, "            if len(parent_tag.split('.')) != len(token.tag.split('.')):",
       "            parent_parts = parent_tag.split('.')\n            own_parts = token.tag.split('.')\n            logger.debug(f'restoring from {token.tag}')\n            if len(parent_parts) != len(own_parts):", None),
     V("loop combinator restore: last component through rsplit", COMB_FILE, _CR, "int(iteration.split('.')[-1])", "int(iteration.rsplit('.', 1)[-1])", None),
+    # producer loop extracted into a helper (B8-5) / collected with any(...) over a temporary (B8-6)
+    V("producer loop extracted into a helper function", UTILS_FILE, _BG, _PLOOP, "            _link_producers(self, token, prev_tokens, token_frontier)\n", None,
+      append=_LINK_HELPER),
+    V("producer loop extracted into a helper, helper result awaited", UTILS_FILE, _BG, _PLOOP, "            await _link_producers(self, token, prev_tokens, token_frontier)\n", None,
+      append=_LINK_HELPER.replace("def _link_producers", "async def _link_producers")),
+    V("unmapped input found with any(...) over gathered rows", UTILS_FILE, _GS, _CLOOP_OLD,
+      "        port_rows = await asyncio.gather(*(asyncio.create_task(self.context.database.get_port(row_dependency['port'])) for row_dependency in dependency_rows))\n"
+      "        if any((port_row['name'] not in self.port_tokens.keys() for port_row in port_rows)):\n            step_to_remove.add(step_id)\n", None),
+    V("unmapped input found with `not all(mapped)` through a boolean temporary", UTILS_FILE, _GS, _CLOOP_OLD,
+      "        port_rows = await asyncio.gather(*(asyncio.create_task(self.context.database.get_port(row_dependency['port'])) for row_dependency in dependency_rows))\n"
+      "        complete = all((port_row['name'] in self.port_tokens.keys() for port_row in port_rows))\n        if not complete:\n            step_to_remove.add(step_id)\n", None),
+    V("unmapped inputs listed first", UTILS_FILE, _GS, _CLOOP_OLD,
+      "        port_rows = await asyncio.gather(*(asyncio.create_task(self.context.database.get_port(row_dependency['port'])) for row_dependency in dependency_rows))\n"
+      "        missing = [r['name'] for r in port_rows if r['name'] not in self.port_tokens.keys()]\n        if missing:\n            step_to_remove.add(step_id)\n", None),
 ]
